@@ -20,7 +20,7 @@
 #include <algorithm>
 
 #ifndef STIR_SRC_CONFIG_DIR
-#  define STIR_SRC_CONFIG_DIR "/tmp/wt/C10-4/src/config"
+#  define STIR_SRC_CONFIG_DIR "/repo/src/config"
 #endif
 
 using namespace stir;
